@@ -44,6 +44,52 @@ def program_task(task):
     return [g]
 
 
+HI_MEM = [{'mem_type': 'RAM', 'beginning': 0, 'end': 256}, {'mem_type': 'RAM', 'beginning': 0xFFFFFF00, 'end': 0x100000000}]
+
+
+def top_exception_task(task):
+    """two-step histories at the edge of the address space: an exception-raising instruction in the last instruction slots
+    below 2^32 (return-address arithmetic wraps there), then - without re-preparing the object - the first instruction of the
+    handler, which stores / saves the return state the entry just produced (PUSH {lr}, STR lr, SRS, STM, MOV, MRS)"""
+    rnd = random.Random(task['seed'])
+    g = S.mk_group(dict(task, cfg=dict(task.get('cfg') or {}, memory_list=HI_MEM)))
+    raisers_arm = [0xE7F000F0, 0xEF000000, 0xE7FFFFFF, 0xE1200070, 0xEE000010, 0xE1600070, 0xE5910001]
+    raisers_t16 = [0xDE00, 0xDF00, 0xBE00, 0xB658 | 0x0600]
+    raisers_t32 = [0xF7F0A000, 0xEE000010, 0xF7F08000]
+    handlers = [0xE92D4000, 0xE52DE004, 0xE58DE000, 0xE1A0000E, 0xE10F0000, 0xE14F1000, 0xE88D4001, 0xE1B0F00E]
+    for k in range(task['n']):
+        thumb = rnd.random() < 0.5
+        st, pc = S.prep(g, rnd, dict(task, modes='all'), thumb, 0, k)
+        sct = C.unlimbs(st['sys']['SCTLR']) & ~((1 << 13) | (1 << 30) | 1 | 2)
+        st['sys']['SCTLR'] = C.limbs(sct | (2 if rnd.random() < 0.5 else 0) | (1 << 22))
+        st['sys']['VBAR'] = C.limbs(0x80)
+        st['sys']['MVBAR'] = C.limbs(0xA0)
+        for r in st['R']:
+            if r.startswith('SP'):
+                st['R'][r] = C.limbs(0x40 + 8 * rnd.randrange(4))
+        st['R']['R1usr'] = C.limbs(0x41)                      # misaligned pointer: LDR r0,[r1,#1] aborts when SCTLR.A = 1
+        mem0 = st['mem']['base'][0]
+        for off in range(0x80, 0xC0, 4):
+            h = rnd.choice(handlers)
+            mem0[off:off + 4] = [(h >> (8 * i)) & 0xFF for i in range(4)]
+        if thumb:
+            w = rnd.choice(raisers_t16 + raisers_t32)
+            off = rnd.choice([0xFE, 0xFC, 0xFA, 0xF8]) if not (w >> 16) else rnd.choice([0xFC, 0xFA, 0xF8])
+        else:
+            w = rnd.choice(raisers_arm)
+            off = rnd.choice([0xFC, 0xF8, 0xF4])
+        st['R']['PC'] = C.limbs(0xFFFFFF00 + off)
+        C.put_instr(st, off, w, thumb, dev=1)
+        e, post = g.add(st, {'n': 'Step'}, meta={'word': w, 'thumb': thumb, 'top': 1})
+        for step in range(2):
+            if e['out'].startswith('hosterror') or e['out'] == 'notimpl':
+                break
+            cur = C.M.project(g.arm)
+            cur = {k2: cur[k2] for k2 in ('R', 'cpsr', 'spsr', 'elr', 'sys', 'mem', 'ev')}
+            e, post = g.add(cur, {'n': 'Step'}, meta={'word': w, 'thumb': thumb, 'top': 2 + step})
+    return [g]
+
+
 def run(ctx):
     rnd = random.Random(ctx.seed)
     q = ctx.quick
@@ -67,6 +113,9 @@ def run(ctx):
         name, over = CONFIGS[i % len(CONFIGS)]
         tasks.append((program_task, dict(name='prog-%s-%d' % (name, i), seed=ctx.seed + 200 + i, modes='priv4',
                                          cfg=over, programs=20 if q else 300)))
+    for i in range(4):
+        name, over = CONFIGS[i % len(CONFIGS)]
+        tasks.append((top_exception_task, dict(name='top-%s-%d' % (name, i), seed=ctx.seed + 400 + i, cfg=over, n=250 if q else 6000)))
     # memory accesses that go through an enabled MMU / MPU: every descriptor kind of the short- and long-descriptor walks,
     # MPU region tables, faulting and non-faulting - the translation code must not die on any of them either
     from . import c14, c15
